@@ -1,17 +1,17 @@
 ---------------------------- MODULE MC_AnnotFam ----------------------------
 (* C08: emission of the annotation-type families (SyltAnnotFam) with their site counts (SyltAnnot).
    The recorded compile results are validated by MC_Annot (mode validate), which is universe-independent. *)
-EXTENDS SyltAnnotFam, SyltAnnot, Json, IOUtils, Randomization
+EXTENDS SyltAnnotOrd, SyltAnnot, Json, IOUtils, Randomization
 
 VARIABLES k, pc
 vars == <<k, pc>>
 
-\* quick tier: GSAMPLE / FSAMPLE / LSAMPLE / MSAMPLE > 0 emit a random subset of that many programs of family G / F / L / M (TLC's -seed makes
+\* quick tier: GSAMPLE / FSAMPLE / LSAMPLE / MSAMPLE / OSAMPLE > 0 emit a random subset of that many programs of family G / F / L / M / O (TLC's -seed makes
 \* it reproducible); family S is always emitted completely
 Num(name) == IF name \in DOMAIN IOEnv THEN atoi(IOEnv[name]) ELSE 0
 Pick(n, S) == IF n > 0 /\ n < Cardinality(S) THEN RandomSubset(n, S) ELSE S
 Keys == Pick(Num("GSAMPLE"), GKeys) \cup SKeys \cup Pick(Num("FSAMPLE"), FKeys) \cup F2Keys
-        \cup Pick(Num("LSAMPLE"), LKeys) \cup Pick(Num("MSAMPLE"), MKeys)
+        \cup Pick(Num("LSAMPLE"), LKeys) \cup Pick(Num("MSAMPLE"), MKeys) \cup Pick(Num("OSAMPLE"), OKeys)
 
 \* the sites of the fixed declarations and helper functions every program of a family starts with (k.pre top-level nodes)
 NPre(c) == NumSites(SubSeq(c.tops, 1, c.pre))
@@ -21,7 +21,7 @@ Init == pc = "start" /\ k \in Keys
 
 \* every program of the families has at least one site of its own, and few enough for all subsets to be erased
 Emit == /\ pc = "start" /\ pc' = "done" /\ k' = k
-        /\ Bind(CaseOf(k), LAMBDA c :
+        /\ Bind(CaseOfX(k), LAMBDA c :
              LET files == IF "files" \in DOMAIN c THEN c.files ELSE <<>>
                  n == NumSitesP(c.tops, files)  np == NPre(c) IN
              /\ Assert(n - np >= 1 /\ n - np <= 6, <<"family program with no or too many sites", c.id, n, np>>)
